@@ -286,6 +286,8 @@ def run(P, R, tier):
     R.check(exp2d, "NORM.models-2d", KEY, f"{models}: (C, D) -> (1, C, D)", "a single model gives one row of scores", "a single model given as a (n_gaussians, n_features) array is no longer expanded to one row: its Gaussians are scored as separate models")
     from ..engines import dtype as _dt
     _dt.check_function(P, R, KEY, raw_attrs=("n", "sum_px", "sum_pxx"))
+    from ..engines import traps as _traps
+    _traps.check(P, R, ['linear_scoring'], scope='linear_scoring:')
 
 
 EXPLANATION += ' Also: (LINEAR) no selective overwrite or non-linear operation on values the score is computed from, other than the zero-frame guard; (NORM.models-2d) a single (C, D) model becomes one row; the MAP -> prior replacement happens exactly for MAP machines; the frame guard is decided from which np.where arm is taken for empty statistics, however mask and quotient are spelled; helpers that compute the two factors are looked into.'
